@@ -494,14 +494,14 @@ mod verif {
     }
     /// C19 at the seglog layer, compression ON or OFF, compressible and incompressible data: an append is refused for lack of
     /// space only if the UNCOMPRESSED record does not fit (the size callers budget for); a stored record never exceeds it.
-    fn append_never_refused<const DL: usize, const RUN: bool>() {
+    fn append_never_refused<const DL: usize, const RUN: bool, const COMP: bool>() {
         unsafe { DISK = [0u8; DISK_SIZE]; }
         // the space check reads only the write offset and the segment size: a writer with an empty buffer at ANY offset
         let size: usize = DISK_SIZE;
         let start: u64 = kani::any();
         kani::assume(START <= start && start as usize <= size);
         let mut w = new_writer(size, start);
-        w.compression_enabled = kani::any();
+        w.compression_enabled = COMP;
         let (old_wo, old_fl) = (w.write_offset, w.flushed_offset.load());
         let header: [u8; 1] = kani::any();
         // compressible (a run of one byte) or incompressible (any bytes that are not a run): one harness each, so that the
@@ -509,8 +509,8 @@ mod verif {
         let data: [u8; DL] = if RUN { [kani::any(); DL] } else { let d: [u8; DL] = kani::any(); kani::assume(d[0] != d[1]); d };
         let need = RECORD_HEAD_SIZE + 1 + DL;
         let is_run = RUN;
-        kani::cover!(w.compression_enabled && old_wo as usize + need == w.size, "reachable: data that fits exactly, compression on");
-        kani::cover!(w.compression_enabled && old_wo as usize + need > w.size, "reachable: data whose plain form does not fit");
+        kani::cover!(old_wo as usize + need == w.size, "reachable: data that fits exactly");
+        kani::cover!(old_wo as usize + need > w.size, "reachable: data whose plain form does not fit");
         match w.append(&header, &data[..]) {
             Ok((o, n)) => {
                 assert!(o == old_wo && n <= need && w.write_offset == old_wo + n as u64 && w.write_offset as usize <= w.size, "stored at the old write offset, never larger than the uncompressed record");
@@ -523,8 +523,9 @@ mod verif {
             Err(_) => { assert!(false, "no other error on a healthy disk"); }
         }
     }
-    #[kani::proof] #[kani::unwind(16)] fn wr_append_never_refused_incompressible() { append_never_refused::<7, false>(); }
-    #[kani::proof] #[kani::unwind(16)] fn wr_append_never_refused_compressible() { append_never_refused::<7, true>(); }
+    #[kani::proof] #[kani::unwind(16)] fn wr_append_never_refused_incompressible() { append_never_refused::<7, false, true>(); }
+    #[kani::proof] #[kani::unwind(16)] fn wr_append_never_refused_compressible() { append_never_refused::<7, true, true>(); }
+    #[kani::proof] #[kani::unwind(16)] fn wr_append_never_refused_compression_off() { append_never_refused::<7, false, false>(); }
     #[kani::proof] #[kani::unwind(12)] fn wr_append_step_small() { append_step::<2>(); }
     #[kani::proof] #[kani::unwind(18)] fn wr_append_step_write_through() { append_step::<8>(); }
 
